@@ -171,13 +171,13 @@ def marking_equations(ck, an, want: set):
                  "the loop covers every margined contract, or the one it was given", f"the marking loop ranges over {src_[:80]}", construct=stmt_text(loop))
         # margin-free contracts are skipped before any write; every other skip is the NaN-quote skip or the no-reference-yet skip
         skip_tests = []
+        mreq_item = fa.sym.ev(ast.parse(f"{cvar}.margin_requirement", mode="eval").body, fa.node_of(loop.body[0]).id)     # the loop contract's margin requirement, by value id
         kinds = {"no-margin": 0, "nan-quote": 0, "no-reference": 0}
         for n in ast.walk(loop):
             if isinstance(n, (ast.Continue, ast.Break, ast.Return)):
                 sg = fa.syntactic_guards(n)
                 in_keyerror = any(isinstance(x, ast.ExceptHandler) and x.type is not None and "KeyError" in ast.unparse(x.type) for x in parents(n))
-                mr = [p for p in sg if (p[0] == "rel" and p[1] == "==" and len(p[4].t) == 1 and p[2].endswith(".margin_requirement") and cvar in p[2]) or
-                      (p[0] == "truthy" and not p[2] and p[1].endswith(".margin_requirement") and cvar in p[1])]
+                mr = [p for p in sg if (p[0] == "rel" and p[1] == "==" and p[4] in (mreq_item, -mreq_item)) or (p[0] == "truthy" and not p[2] and p[1] == mreq_item.key())]
                 nanq = [p for p in sg if p[0] == "truthy" and p[2] and "isnan(" in p[1] and ("liq_price(" in p[1] or "acq_price(-" in p[1])]
                 if isinstance(n, ast.Continue) and len(sg) == 1 and mr:
                     kinds["no-margin"] += 1
@@ -213,9 +213,10 @@ def marking_equations(ck, an, want: set):
         return
     st = snap["end"]
     fw.st = st
-    km, M = _slot(st, "_holdings_margins", f"[{cvar}")
+    ckey = st.locals[cvar].key() if cvar in st.locals else cvar      # the loop's contract, by value id (not by the variable's spelling)
+    km, M = _slot(st, "_holdings_margins", f"[{ckey}]")
     kc, C = _slot(st, "_holdings_quantity", "[self.base_currency]")
-    kl, L = _slot(st, "_last_marking_to_market_price", f"[{cvar}")
+    kl, L = _slot(st, "_last_marking_to_market_price", f"[{ckey}]")
     missing = [n for n, v in (("cash", C), ("margin", M), ("reference price", L)) if v is None]
     if missing:
         ck.fail("LIN", "S2.marking-equations", subj, fa.loc(loop), f"marking_to_market does not write: {missing}", construct="missing:" + ",".join(missing))
@@ -251,7 +252,36 @@ def marking_equations(ck, an, want: set):
 # Trade / fees formulas
 # ---------------------------------------------------------------------------
 
-def trade_formulas(ck, an):
+class _Only:
+    """Forward only the obligations whose clause name ends with one of the wanted field names."""
+
+    def __init__(self, ck, only):
+        self._ck, self._only = ck, set(only)
+
+    def _keep(self, name):
+        return any(name.endswith("-" + k) or name.endswith("." + k) for k in self._only)
+
+    def check(self, cond, rule, name, *a, **k):
+        if self._keep(name):
+            return self._ck.check(cond, rule, name, *a, **k)
+        return cond
+
+    def ok(self, rule, name, *a, **k):
+        if self._keep(name):
+            return self._ck.ok(rule, name, *a, **k)
+
+    def fail(self, rule, name, *a, **k):
+        if self._keep(name):
+            return self._ck.fail(rule, name, *a, **k)
+
+    def __getattr__(self, x):
+        return getattr(self._ck, x)
+
+
+def trade_formulas(ck, an, only=None):
+    """only: restrict to the named Trade fields (properties that depend on part of the trade record)"""
+    if only is not None:
+        ck = _Only(ck, only)
     f = an.prog.func("Trade.__init__")
     summ = attribute_summary(an, f)
     subj = f.short
@@ -406,7 +436,7 @@ def valuation_formulas(ck, an, want: set):
         if node_ is None:
             continue
         preds = fa.guard_predicates(node_.body[0])
-        ck.check(any(p[0] == "rel" and p[1] == "!=" and p[4] == Poly.atom(f"{qvar}∈unpack({fa.sym.canon(loop.iter)})") or (p[0] == "rel" and p[1] == "!=" and qvar in p[2] and len(p[4].t) == 1) for p in preds), "GUARD", f"S6.value-{kind}-for-nonflat",
+        ck.check(any(p[0] == "rel" and p[1] == "!=" and p[4] in (loop_item(fa, loop, 1), -loop_item(fa, loop, 1)) for p in preds), "GUARD", f"S6.value-{kind}-for-nonflat",
                  subj, fa.loc(node_), f"the {kind} formula is applied to positions with quantity != 0", f"the {kind} formula is guarded by {[cmp_key(p) for p in preds]} (not by quantity != 0)", construct=f"kind == '{kind}' guard")
     stores = [n for n in ast.walk(loop) if isinstance(n, ast.Assign) and isinstance(n.targets[0], ast.Subscript) and isinstance(n.value, ast.Name)]
     ok_store = len(stores) == 1 and not fa.syntactic_guards(stores[0]) and ast.unparse(stores[0].targets[0].slice) == cvar
